@@ -29,4 +29,7 @@ def run(check):
     check.run_rule('C14.R3b', lambda c: rule_upgrade_idempotent(c, 'C14.R3'))
     from ..rules_classes import rule_sibling_eq
     check.run_rule('C14.R1s', lambda c: rule_sibling_eq(c, 'C14.R1'))
+    from ..rules_classes import rule_eval_operand_is_text, rule_eq_reflexive
+    check.run_rule('C14.R7', lambda c: rule_eval_operand_is_text(c, 'C14.R7'))
+    check.run_rule('C14.R8', lambda c: rule_eq_reflexive(c, 'C14.R8'))
     check.run_rule('C14.R4', lambda c: rule_nothing_else_overridden(c, 'C14.R4'))
